@@ -85,7 +85,7 @@ def run(rep, tier, seed, replay):
                    theorems=coq["theorems"], axioms_per_theorem=coq["axioms"],
                    trusted_base=ltv.std_trusted_base(coq, [
                        "theorems (all op lists, by induction): ledger_inv, counters_nonneg, abort_releases_all (state level), stop_zero, "
-                       "restartable; THE TIE IS ENUMERATION, NOT PROOF: the theorems are about the ledger model (coq/C16/Model.v); that the real "
+                       "restartable, block_owners_inv, blocks_requestable_after_stop; THE TIE IS ENUMERATION, NOT PROOF: the theorems are about the ledger model (coq/C16/Model.v); that the real "
                        "teardown code has the ledger effects the model ascribes to each event is checked only on the enumerated "
                        "(scenario, cut offset, fault) cases listed in coverage",
                        "session harness (harness/common/session.{h,cc}, wirepeer.h) + harness/c16.cc: scripted sessions, event recording "
